@@ -65,7 +65,7 @@ class Sink:
 
     def oblige(self, st, goal, kind, label, node, frame):
         line = getattr(node, "lineno", 0) if node is not None else 0
-        name = f"{self.fkey}/{kind}/{label}" + (f"@L{line}" if line else "")
+        name = f"{self.fkey}/{kind}/{label}"
         self.obs.append(Ob(name, kind, label, line, st.assumptions(), goal, self.fkey))
 
 
@@ -327,8 +327,10 @@ def verify_function(key: str, repo: Repo, reg, timeout_s=20) -> FunctionResult:
     for ob in sink.obs:
         discharge(ob, timeout_s)
         g = res.groups.setdefault(ob.name, {"verdict": "proved", "backend": set(), "time": 0.0, "kind": ob.kind,
-                                            "line": ob.line, "instances": 0, "witness": None, "detail": ""})
+                                            "lines": [], "instances": 0, "witness": None, "detail": ""})
         g["instances"] += 1
+        if ob.line and ob.line not in g["lines"]:
+            g["lines"].append(ob.line)
         g["time"] += ob.time
         g["backend"].add(ob.backend)
         if ob.verdict == "refuted":
@@ -421,50 +423,91 @@ def _exc_is(I, exc, ent, st):
     return False
 
 
-def _covered(mods, path, contents=False):
-    for m in mods:
-        m = m.strip()
-        if m == path or m == path + "[*]" and contents or (m.endswith(".*") and path.startswith(m[:-1])):
-            return True
-        if contents and m == path:
-            return True
-    return False
+def _covered_sets(I: Interp, c, pre: State):
+    """Evaluate the modifies-clause in the PRE state -> covered (oid, field) pairs / object ids / cell ids / ghosts."""
+    fields, objs, cells, ghosts = set(), set(), set(), set()
+    s = pre.fork()
+    saved = I.frame
+    I.in_contract += 1
+    try:
+        for m in list(c.modifies) + (list(c.exit_modifies) if c.is_cm else []):
+            m = m.strip()
+            contents = m.endswith("[*]")
+            star = m.endswith(".*")
+            src = m[:-3] if contents else (m[:-2] if star else m)
+            node = parse_expr(src)
+            if isinstance(node, ast.Attribute) and isinstance(node.value, ast.Name) and node.value.id == "ghost":
+                ghosts.add(node.attr)
+                continue
+            if star:
+                v = I.eval(node, s)
+                v = v.val if isinstance(v, Opt) else v
+                if isinstance(v, Obj):
+                    objs.add(v.oid)
+                continue
+            if contents or isinstance(node, ast.Name):
+                v = I.eval(node, s)
+                v = v.val if isinstance(v, Opt) else v
+                if isinstance(v, Ref):
+                    cells.add(v.rid)
+                elif isinstance(v, Obj):
+                    objs.add(v.oid)
+                if contents:
+                    continue
+            if isinstance(node, ast.Attribute):
+                b = I.eval(node.value, s)
+                b = b.val if isinstance(b, Opt) else b
+                if isinstance(b, Obj):
+                    fields.add((b.oid, I.mangle(node.attr, I.frame.cls if I.frame else None)))
+                    fields.add((b.oid, node.attr))
+    finally:
+        I.in_contract -= 1
+        I.frame = saved
+    return fields, objs, cells, ghosts
 
 
 def check_frame(I: Interp, c, pre: State, st: State, node):
-    """`modifies` is checked, not assumed: every location outside it must be unchanged at exit."""
-    mods = list(c.modifies) + (list(c.exit_modifies) if c.is_cm else [])
-    for name, v0 in pre.env.items():
-        if name.startswith("$"):
-            continue
+    """`modifies` is checked, not assumed: every pre-existing location outside it must be unchanged at exit."""
+    fields, objs, cells, ghosts = _covered_sets(I, c, pre)
+    is_init = c.key.endswith(".__init__")
+    seen = set()
+
+    def walk(v0, path, depth):
         if isinstance(v0, Opt):
             v0 = v0.val
         if isinstance(v0, Obj):
+            if v0.oid in seen or depth > 3:
+                return
+            seen.add(v0.oid)
             f0 = pre.heap.get(v0.oid, {})
             f1 = st.heap.get(v0.oid, {})
             for f, old in f0.items():
                 new = f1.get(f)
-                shown = _unmangle(f)
-                path = f"{name}.{shown}"
+                sub = f"{path}.{_unmangle(f)}"
                 if new is None or not _same(old, new):
-                    if _covered(mods, path) or _covered(mods, f"{name}.{f}"):
+                    if v0.oid in objs or (v0.oid, f) in fields:
                         continue
-                    I.oblige(st, _val_equal(I, st, pre, old, new), "M", f"frame[{path}]", node)
-                elif isinstance(old, Ref) and pre.heap.get(old.rid) is not st.heap.get(old.rid):
-                    if _covered(mods, path, True) or _covered(mods, f"{name}.{f}", True):
-                        continue
-                    I.oblige(st, _cell_equal(I, st, pre.heap[old.rid], st.heap[old.rid]), "M",
-                             f"frame[{path}[*]]", node)
-            if c.key.endswith(".__init__"):
-                continue
+                    I.oblige(st, _val_equal(I, st, pre, old, new), "M", f"frame[{sub}]", node)
+                else:
+                    walk(old, sub, depth + 1)
         elif isinstance(v0, Ref):
+            if v0.rid in seen:
+                return
+            seen.add(v0.rid)
             if pre.heap.get(v0.rid) is not st.heap.get(v0.rid):
-                if _covered(mods, name, True):
-                    continue
-                I.oblige(st, _cell_equal(I, st, pre.heap[v0.rid], st.heap[v0.rid]), "M", f"frame[{name}[*]]", node)
+                if v0.rid in cells:
+                    return
+                I.oblige(st, _cell_equal(I, st, pre.heap[v0.rid], st.heap[v0.rid]), "M", f"frame[{path}[*]]", node)
+
+    for name, v0 in pre.env.items():
+        if name.startswith("$"):
+            continue
+        if is_init and name == "self":
+            continue
+        walk(v0, name, 0)
     for g, v0 in pre.ghost.items():
         if not _same(v0, st.ghost.get(g)):
-            if _covered(mods, f"ghost.{g}"):
+            if g in ghosts:
                 continue
             I.oblige(st, I.equal(v0, st.ghost[g], st), "M", f"frame[ghost.{g}]", node)
 
